@@ -580,6 +580,29 @@ class GenericPlainRegistry(Generic[QuantityT, UnitT], metaclass=RegistryMeta):
 
         self._helper_adder(definition, self._units, self._units_casei)
 
+        if self._initialized:
+            self._forget_memoized_readings(
+                {definition.name, definition.symbol, *definition.aliases}
+            )
+
+    def _forget_memoized_readings(self, names: set[str]) -> None:
+        """Drop memoized answers that mention a name which has just been defined.
+
+        Before its definition the name may have been read as prefix + unit
+        (e.g. ``dab`` as decabarn); the exact name takes precedence from now on.
+        """
+        cache = self._cache
+        cache.parse_unit.clear()
+        for memo in (cache.root_units, cache.dimensionality):
+            for key in [k for k in memo if not names.isdisjoint(k)]:
+                del memo[key]
+        for key in [
+            k
+            for k in cache.conversion_factor
+            if not (names.isdisjoint(k[0]) and names.isdisjoint(k[1]))
+        ]:
+            del cache.conversion_factor[key]
+
     def load_definitions(
         self, file: Iterable[str] | str | pathlib.Path, is_resource: bool = False
     ):
